@@ -26,12 +26,14 @@ import (
 	"context"
 	"database/sql"
 	"database/sql/driver"
+	"encoding/hex"
 	"errors"
 	"fmt"
 	"os"
 	"strings"
 	"sync"
 	"syscall"
+	"time"
 
 	sqlite3 "github.com/mattn/go-sqlite3"
 )
@@ -72,16 +74,59 @@ type Plan struct {
 	n      int
 	log    []string
 	fired  string // kind of the failed call ("" = not fired)
+	// schedule mode (ArmFunc): decide is asked for every call; records keeps every call with
+	// the time.Now() of the calling goroutine (virtual time inside a synctest bubble)
+	decide  func(CallInfo) Mode
+	records []CallRecord
+	attempt int
+	inAtt   int
 	// BeforeKill, when set, runs just before the process kills itself (tests only).
 	BeforeKill func()
 }
 
-func NewPlan() *Plan { return &Plan{failAt: -1} }
+// CallInfo identifies one driver call. Attempt counts the `begin` calls seen so far minus one
+// (every insertion attempt of the store starts with exactly one BeginTx); calls before the first
+// begin have Attempt -1.
+type CallInfo struct {
+	Index          int
+	Attempt        int
+	IndexInAttempt int
+	Kind           string
+	// Tag is the hex form of the first []byte argument of a Stmt.ExecContext call (for the
+	// `events` statement that is the event id): it tells which batch an attempt carries.
+	Tag string
+}
+
+// CallRecord is one observed call.
+type CallRecord struct {
+	CallInfo
+	At     time.Time
+	Failed Mode
+}
+
+func NewPlan() *Plan { return &Plan{failAt: -1, attempt: -1} }
+
+// ArmFunc starts counting from zero and lets decide choose, for every call, whether and how it
+// fails (any number of faults; ModeNone = let it through). decide runs under the plan's lock.
+func (p *Plan) ArmFunc(decide func(CallInfo) Mode) {
+	p.mu.Lock()
+	p.armed, p.failAt, p.mode, p.n, p.log, p.fired = true, -1, ModeNone, 0, nil, ""
+	p.decide, p.records, p.attempt, p.inAtt = decide, nil, -1, 0
+	p.mu.Unlock()
+}
+
+// Records returns every call seen since the last Arm/ArmFunc.
+func (p *Plan) Records() []CallRecord {
+	p.mu.Lock()
+	defer p.mu.Unlock()
+	return append([]CallRecord(nil), p.records...)
+}
 
 // Arm starts counting from zero; failAt < 0 only counts.
 func (p *Plan) Arm(failAt int, mode Mode) {
 	p.mu.Lock()
 	p.armed, p.failAt, p.mode, p.n, p.log, p.fired = true, failAt, mode, 0, nil, ""
+	p.decide, p.records, p.attempt, p.inAtt = nil, nil, -1, 0
 	p.mu.Unlock()
 }
 
@@ -95,7 +140,7 @@ func (p *Plan) Disarm() (n int, kinds []string, fired string) {
 }
 
 // step registers one driver call; it returns the mode in which this call has to fail.
-func (p *Plan) step(kind string) Mode {
+func (p *Plan) step(kind string, tag ...string) Mode {
 	if p == nil {
 		return ModeNone
 	}
@@ -107,6 +152,31 @@ func (p *Plan) step(kind string) Mode {
 	i := p.n
 	p.n++
 	p.log = append(p.log, kind)
+	if kind == "begin" {
+		p.attempt++
+		p.inAtt = 0
+	}
+	ci := CallInfo{Index: i, Attempt: p.attempt, IndexInAttempt: p.inAtt, Kind: kind}
+	if len(tag) > 0 {
+		ci.Tag = tag[0]
+	}
+	p.inAtt++
+	if p.decide != nil {
+		m := p.decide(ci)
+		p.records = append(p.records, CallRecord{CallInfo: ci, At: time.Now(), Failed: m})
+		if m != ModeNone && p.fired == "" {
+			p.fired = kind
+		}
+		if m == ModeKill {
+			if p.BeforeKill != nil {
+				p.BeforeKill()
+			}
+			syscall.Kill(os.Getpid(), syscall.SIGKILL)
+			select {}
+		}
+		return m
+	}
+	p.records = append(p.records, CallRecord{CallInfo: ci, At: time.Now()})
 	if i == p.failAt && p.fired == "" && p.mode != ModeNone {
 		p.fired = kind
 		if p.mode == ModeKill {
@@ -354,7 +424,14 @@ func (s *stmt) ExecContext(ctx context.Context, args []driver.NamedValue) (drive
 	if s.c.isDropped() {
 		return nil, ErrDropped
 	}
-	if m := s.c.plan.step("exec(" + s.lbl + ")"); m != ModeNone {
+	tag := ""
+	for _, a := range args {
+		if b, ok := a.Value.([]byte); ok {
+			tag = hex.EncodeToString(b)
+			break
+		}
+	}
+	if m := s.c.plan.step("exec("+s.lbl+")", tag); m != ModeNone {
 		return nil, s.c.fail(m, "exec("+s.lbl+")")
 	}
 	return s.s.ExecContext(ctx, args)
